@@ -36,12 +36,12 @@ type vfEvent struct {
 }
 
 type vfObs struct {
-	mu       sync.Mutex
-	events   []vfEvent
-	errors   []string
-	errSeq   []int64
-	handled  []string // ids of routed stanzas, in handler-entry order
-	kinds    []string
+	mu           sync.Mutex
+	events       []vfEvent
+	errors       []string
+	errSeq       []int64
+	handled      []string // ids of routed stanzas, in handler-entry order
+	kinds        []string
 	handlerDelay func(id string)
 }
 
@@ -183,15 +183,15 @@ type vfTap struct {
 	closes      int64
 }
 
-func (t *vfTap) Connect() (string, error)      { return t.inner.Connect() }
-func (t *vfTap) DoesStartTLS() bool             { return t.inner.DoesStartTLS() }
-func (t *vfTap) StartTLS() error                { return t.inner.StartTLS() }
-func (t *vfTap) LogTraffic(w io.Writer)         { t.inner.LogTraffic(w) }
-func (t *vfTap) StartStream() (string, error)   { return t.inner.StartStream() }
-func (t *vfTap) GetDecoder() *xml.Decoder       { return t.inner.GetDecoder() }
-func (t *vfTap) IsSecure() bool                 { return t.inner.IsSecure() }
-func (t *vfTap) Read(p []byte) (int, error)     { return t.inner.Read(p) }
-func (t *vfTap) ReceivedStreamClose()           { t.inner.ReceivedStreamClose() }
+func (t *vfTap) Connect() (string, error)     { return t.inner.Connect() }
+func (t *vfTap) DoesStartTLS() bool           { return t.inner.DoesStartTLS() }
+func (t *vfTap) StartTLS() error              { return t.inner.StartTLS() }
+func (t *vfTap) LogTraffic(w io.Writer)       { t.inner.LogTraffic(w) }
+func (t *vfTap) StartStream() (string, error) { return t.inner.StartStream() }
+func (t *vfTap) GetDecoder() *xml.Decoder     { return t.inner.GetDecoder() }
+func (t *vfTap) IsSecure() bool               { return t.inner.IsSecure() }
+func (t *vfTap) Read(p []byte) (int, error)   { return t.inner.Read(p) }
+func (t *vfTap) ReceivedStreamClose()         { t.inner.ReceivedStreamClose() }
 func (t *vfTap) Ping() error {
 	atomic.AddInt64(&t.pings, 1)
 	if t.BeforePing != nil {
@@ -367,13 +367,13 @@ func vfWaitUntil(max time.Duration, cond func() bool) bool {
 // test PKI (in memory)
 
 type vfPKI struct {
-	CA        *x509.Certificate
-	caKey     *ecdsa.PrivateKey
-	Pool      *x509.CertPool
-	OtherCA   *x509.Certificate
-	otherKey  *ecdsa.PrivateKey
-	certs     map[string]tls.Certificate
-	mu        sync.Mutex
+	CA       *x509.Certificate
+	caKey    *ecdsa.PrivateKey
+	Pool     *x509.CertPool
+	OtherCA  *x509.Certificate
+	otherKey *ecdsa.PrivateKey
+	certs    map[string]tls.Certificate
+	mu       sync.Mutex
 }
 
 var vfPKIOnce sync.Once
